@@ -23,6 +23,9 @@ def tag_of(key):
     return cid.split("#", 1)[1] if "#" in cid else ""
 
 
+IGNORED_KEYS = set()
+
+
 def obs_equal(kind, a, b):
     """model observations may carry fewer key=value tokens than the implementation's (same keys are compared)"""
     if a == b:
@@ -30,8 +33,8 @@ def obs_equal(kind, a, b):
     if kind in ("emit", "hist", "run") and a is not None and b is not None and "=" in b:
         akeys = [t.split("=", 1)[0] for t in a.split(" ") if "=" in t]
         bkeys = [t.split("=", 1)[0] for t in b.split(" ") if "=" in t]
-        at = [t for t in a.split(" ") if t.split("=", 1)[0] in bkeys]
-        bt = [t for t in b.split(" ") if t.split("=", 1)[0] in akeys]
+        at = [t for t in a.split(" ") if t.split("=", 1)[0] in bkeys and t.split("=", 1)[0] not in IGNORED_KEYS]
+        bt = [t for t in b.split(" ") if t.split("=", 1)[0] in akeys and t.split("=", 1)[0] not in IGNORED_KEYS]
         return at == bt
     return False
 
@@ -338,6 +341,46 @@ def run_c16(ctx, ck):
             lambda k, s: "ok:" in (s["impl"].get(k) or ""), oracle=syntax_oracle)
 
 
+# ---------------------------------------------------------------- C06
+def verdict_of_emit(o):
+    d = dict(t.split("=", 1) for t in (o or "").split(" ") if "=" in t)
+    b, w = d.get("bash", ""), d.get("batch", "")
+    if b.startswith("ok:") and w.startswith("ok:"):
+        return "accept"
+    if b == "err" and w == "err":
+        return "reject"
+    return "mixed(%s/%s)" % (b[:12], w[:12])
+
+
+def accept_oracle(k, s):
+    e = s["expect"].get(k)
+    if e is None:
+        return False
+    v = verdict_of_emit(s["impl"].get(k))
+    if v == e:
+        return None
+    return "typing rules say %s, the implementation says %s" % (e, v)
+
+
+def run_c06(ctx, ck):
+    import subprocess
+    IGNORED_KEYS.update({"bashsyntax", "batchsyntax"})      # quoting of literals is C08/C16's business, not typing's
+    d = ctx.work + "/c06table"
+    subprocess.run(["python3", "/verif/tools/c06table.py", "--cases", d, "--std", "/verif/.build/std"], check=True, stdout=subprocess.DEVNULL)
+    s = ck.run_cases_dir(ctx, d)
+    compare(ctx, s, "typing table: 58 positions x 8 offered types x 5 contexts, both targets", sig_from_expect, describe_prog,
+            lambda k, s: True, oracle=accept_oracle)
+    ctx.cov["table"] = s["meta"]
+    ctx.cov["exhaustive"] = True
+    n = 400 if ctx.tier == "quick" else 20000
+    s2 = ck.run_stream(ctx, "typed-mutants", n)
+    compare(ctx, s2, "generated programs, 1 in 6 with one typed position corrupted", sig_from_expect, describe_prog,
+            lambda k, s: True, oracle=accept_oracle)
+    ctx.cov.setdefault("distribution", {}).update(s2["meta"])
+    for k in list(s["cases"])[:1] + list(s2["cases"])[:1]:
+        ctx.samples.append({"source": prog_source(s["cases"].get(k) or s2["cases"].get(k))[-300:], "verdict": verdict_of_emit((s["impl"].get(k) or s2["impl"].get(k)))})
+
+
 # ---------------------------------------------------------------- C14
 def run_c14(ctx, ck):
     n = 40 if ctx.tier == "quick" else 1500
@@ -376,6 +419,12 @@ SEM_TRUST = ["coq/Sem/Src.v is the specification of program meaning (validated o
              "the generator's notion of 'defined behaviour' (harness/proggen.go) bounds what is explored"]
 
 PROPS = {
+    "C06": {"run": run_c06,
+            "rule": "EXHAUSTIVE table (tools/c06table.py): 58 typed positions x 8 offered types x 5 contexts + returned values = 2344 single-position programs with "
+                    "the verdict Go's rules / the README signatures prescribe, each through both converters; plus generated programs (unsafe mode) of which "
+                    "about 15% have exactly one position corrupted; distinct and non-trivial = every entry",
+            "trusted": ["tools/c06table.py encodes the typing rules (accept iff offered type is allowed at the position)"],
+            "assumptions": ["string ordering, the argument type of panic, slice equality, print of slices are unspecified and not demanded"]},
     "C01": {"run": run_c01, "rule": SEM_RULE + "scalars, operators, all control flow, print/itoa/panic", "trusted": SEM_TRUST,
             "assumptions": ["real Bash 5.2 of this sandbox is the interpreter"]},
     "C02": {"run": run_c02, "rule": SEM_RULE + "functions of any arity, multi-value returns, nested calls, shared identifier pools, globals written in functions, swaps",
